@@ -17,7 +17,7 @@ from vlib import VERIF
 THEOREMS = [l.strip() for l in open(os.path.join(VERIF, "props", "chainb.theorems")) if l.strip() and not l.startswith("#")]
 MODULE = "Fv.Props.ChainB"
 CORPUS = os.path.join(VERIF, "corpus", "chainb")
-FLAVOURS = "mpsc_u,mpsc_u_async"
+FLAVOURS = "mpsc_u,mpsc_u_async,mpmc_u,mpmc_u_async"
 
 ASSUMPTIONS = [
     "chain-B: sequentially consistent memory; the ordering of every access is compared with the model's on every trace (weaker = MISMATCH), not given semantics",
@@ -36,8 +36,8 @@ def selftest_layout(drv, h):
     expect a `calibration` MISMATCH from the driver."""
     p = subprocess.run([h, "run", os.path.join(CORPUS, "calibration.case"), "--atomics"], capture_output=True, text=True, timeout=120)
     txt = p.stdout.splitlines()
-    i = next(k for k, l in enumerate(txt) if l.startswith("L a3:bool"))
-    j = next(k for k, l in enumerate(txt) if l.startswith("L a4:usize"))
+    i = next(k for k, l in enumerate(txt) if l.startswith("L a3:"))
+    j = next(k for k, l in enumerate(txt) if l.startswith("L a4:"))
     txt[i], txt[j] = txt[j], txt[i]
     q = subprocess.run([drv], input="\n".join(txt) + "\n", capture_output=True, text=True, timeout=120)
     return "calibration" in q.stdout and "MISMATCH" in q.stdout
